@@ -138,7 +138,9 @@ Proof. exact census_schedule_peak_runs. Qed.
 (* ====================================================================================== *)
 (* C18, internal/finitestate leg (subscriptions of every bundled runnable and of the supervisor's
    state monitors).  Models: Fsm.v (the machine, the broadcast manager, the GetStateChan forwarder;
-   [Fsm.step] = the repaired forwarder `select { case wrappedCh <- s: case <-ctx.Done(): return }`,
+   [Fsm.step] = the repaired forwarder (send-or-ctx.Done; after the cancel a value in flight waits
+   for room in the wrapped channel for a bounded grace only, then it is discarded - a timed internal
+   step - and the forwarder goes on until the manager channel is closed),
    [stepx false] = the unchanged code) and FsmGo.v (census: forwarders, the manager's cleanup
    goroutines, broadcast senders; [quietb]: no internal label of any subscriber is enabled - the
    consumer's labels LRecv / LRecvClosed are NOT internal, so nothing is assumed about consumers:
@@ -176,13 +178,21 @@ Theorem C18_fsm_okb : forall cfg ls s,
 Proof. exact fsm_c18_okb. Qed.
 
 (* The goroutine dump of the harness is accepted only in a state where every goroutine is blocked
-   (up to the 5 s broadcast timer) and only with the model's own numbers; a wrapper schedule is a
-   schedule of the machine model. *)
+   (possibly on one of the two timers: 5 s broadcast timeout, 100 ms forwarder grace) and only with
+   the model's own numbers; a dump taken after a pause longer than the grace with no machine call in
+   flight only in a QUIESCENT state (to which C18_fsm_clean / _no_accumulation apply); a wrapper
+   schedule is a schedule of the machine model. *)
 Theorem C18_fsm_observation_sound : forall fx c g f cl b g',
   FsmGo.gstep fx c g (GSnap f cl b) = Some g' ->
   g' = g /\ stableb fx c (gm g) = true /\
   f = forwarders (gm g) /\ cl = cleaners (gm g) /\ b = senders (gm g).
 Proof. exact gsnap_label_sound. Qed.
+
+Theorem C18_fsm_quiet_observation_sound : forall fx c g f cl b g',
+  FsmGo.gstep fx c g (GQuiet f cl b) = Some g' ->
+  g' = g /\ quietb fx c (gm g) = true /\
+  f = forwarders (gm g) /\ cl = cleaners (gm g) /\ b = senders (gm g).
+Proof. exact gquiet_label_sound. Qed.
 
 Theorem C18_fsm_schedules_project : forall fx c ls g g',
   run (FsmGo.gstep fx c) g ls = Some g' -> run (stepx fx c) (gm g) (FsmGo.erase ls) = Some (gm g').
@@ -204,12 +214,12 @@ Theorem C18_fsm_leak_legacy_accumulates :
             quietb false fsm_cfg s = true /\ open_subs s = 0 /\ forwarders s = 3.
 Proof. exact leak_legacy_accumulates. Qed.
 
-(* On the repaired model the same history is not quiescent (the forwarder can give up), and after
-   that step nothing is left. *)
+(* On the repaired model the same history is not quiescent (the forwarder can discard the value it
+   holds and then ends on the closed manager channel), and after those two steps nothing is left. *)
 Theorem C18_fsm_leak_repaired :
   run (Fsm.step fsm_cfg) Fsm.init leak_witness <> None /\
   (forall s, run (Fsm.step fsm_cfg) Fsm.init leak_witness = Some s -> quietb fix_fwd fsm_cfg s = false) /\
-  exists s, run (Fsm.step fsm_cfg) Fsm.init (leak_witness ++ [LFwdAbort 0]) = Some s /\
+  exists s, run (Fsm.step fsm_cfg) Fsm.init (leak_witness ++ [LFwdAbort 0; LFwdClose 0]) = Some s /\
             quietb fix_fwd fsm_cfg s = true /\ forwarders s = 0 /\ FsmGo.census s = 0.
 Proof. exact leak_repaired. Qed.
 
@@ -218,13 +228,14 @@ Print Assumptions C18_fsm_open_alive.
 Print Assumptions C18_fsm_no_accumulation.
 Print Assumptions C18_fsm_okb.
 Print Assumptions C18_fsm_observation_sound.
+Print Assumptions C18_fsm_quiet_observation_sound.
 Print Assumptions C18_fsm_schedules_project.
 Print Assumptions C18_fsm_leak_legacy_refuted.
 Print Assumptions C18_fsm_leak_legacy_accumulates.
 Print Assumptions C18_fsm_leak_repaired.
 
 (* non-vacuity: three subscribe / cancel cycles during a transition burst - an absent consumer (its
-   forwarder gives up), a consumer that reads one value and stops, a consumer that drains and sees
+   forwarder discards two values), a consumer that reads one value and stops, a consumer that drains and sees
    the close - then a fourth subscription stays open: quiescent, 4 subscriptions made, 1 open,
    census 2 (its forwarder and its cleanup goroutine). *)
 Example C18_ex_fsm_cycles :
